@@ -316,7 +316,14 @@ def check_collection_and_support(prog, rep):
         visited = [x.args[0] for x in recs]
         inserted = [x.args[1] for x in ins if len(x.args) >= 2]
         good = sorted(map(repr, visited)) == sorted(map(repr, kids)) and (inserted == ([var] if var else []))
-        ret_ok = s.ret is not None and (terms.mentions_param(s.ret, pn[1]) or s.ret == seen)
+        # the accumulated set: the returned value, or what is left in a `&mut` accumulator
+        acc = s.mut_out.get(pn[1]) if getattr(s, "mut_out", None) and pn[1] in s.mut_out else s.ret
+        if acc is None or acc == ("unit",) or acc == terms.UNIT:
+            acc = seen if not kids and not var else acc
+        merged = [y for y in [acc] + list(subterms(acc)) if y[0] in ("call", "rec") and isinstance(y[1], str) and y[1].endswith("collect_unique_hctl_vars_recursive")] \
+            if isinstance(acc, tuple) else []
+        ret_ok = isinstance(acc, tuple) and (terms.mentions_param(acc, pn[1]) or acc == seen) and \
+            all(any(k in (m[2] or ()) for m in merged) for k in kids)
         rep.check(good and ret_ok, "C07-R4", f"collect:{name}", where,
                   "every child is visited; the variable is collected exactly for bind / exists / forall; earlier findings are kept",
                   f"for a {name} node: visited children {[sem.short(x, 30) for x in visited]}, collected {[sem.short(x, 30) for x in inserted]}; "
